@@ -241,6 +241,11 @@ def run(facts, cg):
                     if any(n[0] == 'binop' and n[1] in ('Lt', 'Le', 'Gt', 'Ge', 'Eq', 'Ne') and has_call(n, '::len') for n in walk(cterm)) or \
                             (has_call(cterm, '::cmp') and has_call(cterm, '::len')):
                         compared = True
+            # what is handed back is the front of the buffer: `split_off(n)` *returns the tail* [n, len) and keeps the front - returning its
+            # result hands out what the server sent beyond the range instead of the range
+            if any(n[0] == 'call' and n[1].split('::')[-1] == 'split_off' for n in walk(term)):
+                finding('R-EXACTLEN', b.q, 'returns-the-tail', 'read_at returns the result of split_off(..) at %s: that is the surplus behind the requested size, not the '
+                        'requested bytes' % st['loc'])
             inst = {'rule': 'R-EXACTLEN', 'function': b.q, 'returned': show(term)[:80], 'cut_to_size': cut, 'fills': fills, 'length_compared': compared}
             instances.append(inst)
             if not cut and not (fills and all(x[1] for x in fills)) and not (not fills and compared):
